@@ -474,6 +474,144 @@ pub mod proofs {
         nest_finish(&ch, 0, before);
         core::mem::forget(ch);
     }
+    /// No nested operation, but up to three spurious weak-CAS failures anywhere in
+    /// the operation (send, then recv): nothing is discarded or reported empty
+    /// early, steps stay bounded by the failures.
+    fn spurious_only(queued: usize) {
+        let ch: Channel<u8> = Channel::new();
+        let mut i = 0;
+        while i < 5 {
+            if i < queued {
+                ch.send(i as u8 + 1);
+            }
+            i += 1;
+        }
+        unsafe {
+            let (_, f) = chan::words(&ch);
+            F0 = f;
+            CH = &ch;
+            vshim::HOOKS.stuck = stuck;
+        }
+        vshim::set_mode_nest(0, 0, 3);
+        let before = vshim::ops_at_depth(0);
+        do_send(&ch);
+        let mid = vshim::ops_at_depth(0);
+        let fails_send = vshim::cas_fails();
+        assert!(mid - before <= 5 + fails_send, "C08: more steps in one channel operation than its interruptions and spurious CAS failures explain");
+        do_recv(&ch);
+        kani::cover!(fails_send == 3, "three spurious CAS failures inside one send");
+        kani::cover!(vshim::cas_fails() == 3 && fails_send == 0, "three spurious CAS failures inside one recv");
+        nest_finish(&ch, 0, mid);
+        core::mem::forget(ch);
+    }
+    #[kani::proof]
+    #[kani::unwind(10)]
+    pub fn c08_q_spurious_cas_failures() {
+        spurious_only(2);
+    }
+
+    // ------------------------------------------------------------------
+    // Enumeration of the boundaries the symbolic harnesses below do not have:
+    // right AFTER each successful CAS of the outer operation (the symbolic ones
+    // interrupt before each shim operation).  The index of the boundary is a
+    // concrete loop counter, so each run is folded by symex.
+    // ------------------------------------------------------------------
+    const MAXP: usize = 4;
+    static mut NESTED_OP: u8 = 1; // 1 = send, 2 = recv
+    fn enum_interrupt(kind: u8, _var: usize) {
+        if kind != vshim::OP_AFTER_CAS || !vshim::is_nth_point() {
+            return;
+        }
+        vshim::consume_interrupt();
+        let ch = unsafe { &*CH };
+        if unsafe { NESTED_OP } == 1 {
+            do_send(ch);
+        } else {
+            do_recv(ch);
+        }
+    }
+    fn reset_ghost() {
+        unsafe {
+            T::sent = [false; NTAG];
+            T::got = [0; NTAG];
+            T::next_tag = 6;
+            NOUT = 0;
+            SENT_DEPTH = [0; NTAG];
+        }
+    }
+    fn enumerate_points(queued: usize, outer_is_send: bool, nested_op: u8) {
+        unsafe {
+            NESTED_OP = nested_op;
+            vshim::HOOKS.interrupt = enum_interrupt;
+            vshim::HOOKS.stuck = stuck;
+            vshim::ST::nest_post_points = true;
+        }
+        let mut all_points = false;
+        let mut nested_runs = 0;
+        let mut p = 0;
+        while p <= MAXP {
+            // p == MAXP: no nested operation
+            reset_ghost();
+            let ch: Channel<u8> = Channel::new();
+            let mut i = 0;
+            while i < 5 {
+                if i < queued {
+                    ch.send(i as u8 + 1);
+                }
+                i += 1;
+            }
+            unsafe {
+                let (_, fw) = chan::words(&ch);
+                F0 = fw;
+                CH = &ch;
+            }
+            vshim::enumerate(if p == MAXP { usize::MAX - 1 } else { p }, usize::MAX - 1);
+            vshim::set_mode_nest(1, 1, 0);
+            let before = vshim::ops_at_depth(0);
+            if outer_is_send {
+                do_send(&ch);
+            } else {
+                do_recv(&ch);
+            }
+            if p == MAXP {
+                // the undisturbed run has seen every such boundary of the outer operation
+                all_points = vshim::points_seen() < MAXP;
+            }
+            nested_runs += vshim::interrupts_taken();
+            nest_finish(&ch, 0, before);
+            core::mem::forget(ch);
+            p += 1;
+        }
+        kani::cover!(all_points, "the enumeration bound exceeds the number of successful CAS operations of the outer operation");
+        kani::cover!(nested_runs >= 1, "a nested operation ran right after a successful CAS");
+    }
+    #[kani::proof]
+    #[kani::unwind(10)]
+    pub fn c08_enum_send_in_send() {
+        enumerate_points(2, true, 1);
+    }
+    #[kani::proof]
+    #[kani::unwind(10)]
+    pub fn c08_enum_send_in_recv() {
+        enumerate_points(2, false, 1);
+    }
+    #[kani::proof]
+    #[kani::unwind(10)]
+    pub fn c08_enum_send_in_recv_full() {
+        enumerate_points(5, false, 1);
+    }
+    #[kani::proof]
+    #[kani::unwind(10)]
+    pub fn c08_enum_send_in_send_last_slot() {
+        enumerate_points(4, true, 1);
+    }
+    #[kani::proof]
+    #[kani::unwind(10)]
+    pub fn c08_enum_recv_in_recv() {
+        enumerate_points(2, false, 2);
+    }
+    // (send() on a full channel performs no successful CAS: nothing to enumerate)
+
     // outer operation / nested operation (a signal handler only ever sends)
     #[kani::proof]
     #[kani::unwind(10)]
